@@ -662,4 +662,12 @@ example := genLinks_wiring_CB ⟨2, 2, 2, 1, false, false, false, 7⟩ (by decid
 /-- non-vacuity: a black link -/
 example := genLinks_wiring ⟨2, 3, 2, 2, true, true, true, 0⟩ (by decide) 5 (by decide) (.black 0) 1 (by decide)
 
+/-- `DConnected_linked` with its hypothesis `wiringOk` proved: a chain of hops connected by `peer` is a chain of links
+of the tables built by `genLinks` -/
+theorem DConnected_linked_of_le (d : Dragonfly) (hGB : d.G ≤ d.C * d.B) (ss : List DStep) (a b : Nat)
+    (h : DConnected d a ss b) : DLinked d a ss b :=
+  DConnected_linked d (wiringOk_of_le d hGB) ss a b h
+
+example : (⟨3, 2, 2, 1, false, false, true, 5⟩ : Dragonfly).wiringOk = true := wiringOk_of_le _ (by decide)
+
 end SgVerif.C26
